@@ -74,6 +74,9 @@ def cases_for(rng, tier):
         cases.append({"sb": sbv(), "ops": c03.one_history(rng), "gen": "tree"})
     for i in range(360 if q else 9000):
         cases.append({"sb": sbv(), "ops": c13.one_history(rng), "gen": "resize"})
+    for i in range(30 if q else 1000):       # soft / external links (stored as separate objects by this writer)
+        cases.append({"sb": sbv(), "ops": histgen.gen_mixed(rng, nops=rng.choice([12, 30]), fail_rate=0.05, soft_links=True, resize=False), "gen": "softlinks"})
+        cases[-1]["ops"].append({"op": "extlink", "path": "/ext%d" % i, "file": "other_%d.h5" % i, "target": "/some/where"})
     # fixed corner cases: empty file, never-written datasets, full symbol table node
     for sb in (0, 2, 3):
         cases.append({"sb": sb, "ops": [], "gen": "corner"})
@@ -198,9 +201,18 @@ def compare_tree(orc, res):
             f.append("tree: %s decodes as %s, expected %s" % (path, cur["kind"], o.kind))
             continue
         if o.kind == "group":
-            want = set(o.children) | set(getattr(o, "softlinks", {}) or {})
+            soft = getattr(o, "softlinks", {}) or {}
+            want = set(o.children) | set(soft)
             if set(cur["children"]) != want:
                 f.append("tree: group %s lists %s, expected %s" % (path, sorted(cur["children"])[:8], sorted(want)[:8]))
+            for nm, (k, target, fname) in soft.items():
+                ln = objs.get(cur["children"].get(nm))
+                if ln is None or "error" in ln:
+                    continue
+                wantl = [dict(name=nm, kind="soft", value=target.encode())] if k == "softlink" else \
+                        [dict(name=nm, kind="external", value=(fname.encode(), target.encode()))]
+                if ln["kind"] != "linkobject" or ln.get("links") != wantl:
+                    f.append("tree: link %s%s decodes as %s %s, created as %s" % (path, nm.decode("utf-8", "replace"), ln["kind"], ln.get("links"), wantl))
         # attributes
         if set(cur["attrs"]) != set(o.attrs):
             f.append("attr: %s has attributes %s, expected %s" % (path, sorted(cur["attrs"])[:10], sorted(o.attrs)[:10]))
